@@ -88,6 +88,75 @@ PROPS["C01"] = dict(
 )
 
 
+PROPS["C07"] = dict(
+    harness="p_sem",
+    phases=dict(quick=[rc(8, 800), rc(8, 5000, flavour="fast", seed_offset=100)],
+                thorough=[rc(16, 10000), rc(16, 120000, flavour="fast", seed_offset=100)]),
+    rule=("cases: typed random programs without user macros (builtin +/- sugar allowed) printed one statement per line (labels on their "
+          "statement's line, header and END on own lines), 1-4 files split at line boundaries with nested includes. Oracle: the reference "
+          "interpreter emits the expected stop sequence (statement lines before execution, LOOP/WHILE header once per entry, END once per "
+          "exit by the loop condition, program END before return, jump to a label stops on the label's line) and is run in lock step with "
+          "VM.execute() in stepping mode; at every stop location and the full variable view of every activation are compared. "
+          "Non-trivial: >=6 stops including a loop exit and a callee END; distinct by content hash."),
+    min_nontrivial=dict(quick=1500, thorough=50000),
+    assumptions=["leaving a loop by GOTO does not visit its END line (only exits through the loop condition do)",
+                 "when the reference exceeds its step budget or the word range only the prefix of the stop sequence is compared"],
+    technique="property-based testing: rapidcheck-generated canonical-layout programs, reference stop-sequence/variable-view model in lock step with the stepping VM",
+    level_text=("Exploration: for tens of thousands of generated one-statement-per-line programs every stop of the complete stepping run is "
+                "compared (file, line, all activations' variable views) with the sequence a reference interpreter derives from the property text."),
+    level_note="trusted: reference interpreter and canonical printer; read-only VM hooks for activation names",
+)
+
+PROPS["C19"] = dict(
+    harness="p_sem",
+    phases=dict(quick=[rc(8, 800), rc(8, 5000, flavour="fast", seed_offset=100)],
+                thorough=[rc(16, 10000), rc(16, 100000, flavour="fast", seed_offset=100)]),
+    rule=("cases: typed random programs, half of them with a forced call inside a loop, run instruction by instruction (<=30000). Oracle "
+          "(invariant via read-only hook): after every instruction the frames of the live activations are contiguous in call order from "
+          "word 0 and the data memory size equals the sum of their sizes. Non-trivial: run with >=3 returns; distinct by content hash."),
+    min_nontrivial=dict(quick=1500, thorough=40000),
+    assumptions=["frame layout is observed through the THEO_VERIF accessors verif_frames()/verif_data()"],
+    technique="property-based testing: rapidcheck-generated programs, frame-accounting invariant checked after every VM instruction",
+    level_text="Exploration: invariant over every instruction boundary of tens of thousands of generated executions with calls in loops.",
+    level_note="trusted: read-only VM hooks; generator",
+)
+
+PROPS["C20"] = dict(
+    harness="p_sem",
+    phases=dict(quick=[rc(8, 2500), rc(8, 8000, flavour="fast", seed_offset=100)],
+                thorough=[rc(16, 40000), rc(16, 150000, flavour="fast", seed_offset=100)]),
+    rule=("cases: (a) typed random programs with constants near 2^31 (largest accepted literal, x+c with large c, helper-program doubling), "
+          "run twice instruction by instruction under UBSan; (b) numeric literals of 1-40 digits (within 3 of 2^31-1, 32-bit wrapping values, "
+          "long digit strings) in every literal position: assignment, IF constant, call argument, +/- sugar constant, macro priority, $n. "
+          "Oracle: no sanitizer report, every data word in [0, 2^31-1] after every instruction, both runs end identically; literal >= 2^31-1 "
+          "<=> compile incorrect with an 'out of range' error. Non-trivial: a run in which the mathematical value of an addition exceeds "
+          "2^31-1, or a literal case; distinct by content hash."),
+    min_nontrivial=dict(quick=400, thorough=5000),
+    assumptions=["for an over-long $n only 'compile incorrect' is asserted (the property names literals and priorities)",
+                 "UBSan only sees the ASan/UBSan flavour; the fast flavour checks the value invariants and the literal oracle"],
+    technique="property-based testing: rapidcheck-generated big-value programs and boundary literals under UBSan with a word-range invariant and a range-error oracle",
+    level_text="Exploration: generated executions near the word boundary with sanitizers as part of the oracle; boundary literals in every position.",
+    level_note="trusted: UBSan/ASan runtimes, read-only VM hooks",
+)
+
+PROPS["C16"] = dict(
+    harness="p_sem",
+    phases=dict(quick=[rc(8, 800), rc(8, 5000, flavour="fast", seed_offset=100)],
+                thorough=[rc(16, 10000), rc(16, 100000, flavour="fast", seed_offset=100)]),
+    rule=("cases: (accept direction) typed random programs, two thirds of them using neither WHILE nor GOTO with LOOP bodies that assign "
+          "their own bound. Oracle: the EXEC call graph of the emitted code is acyclic, the activation stack never exceeds definitions+1 "
+          "after any instruction, LOOP-only programs halt within the budget proportional to the reference step count and end in the "
+          "reference state. (reject direction, harness p_accept) self/forward/mutual references must be rejected unless an earlier "
+          "complete definition of the name exists. Non-trivial: LOOP-only program with nesting >=2 whose body assigns the bound and which "
+          "iterates, or a general program reaching call depth >=3, or a rejected reference attempt; distinct by content hash."),
+    min_nontrivial=dict(quick=300, thorough=5000),
+    assumptions=["LOOP-only programs whose reference run exceeds the step budget are counted as inconclusive, not judged"],
+    technique="property-based testing: rapidcheck-generated LOOP programs and reference attempts; call-graph/depth invariants and halting within a reference-derived bound",
+    level_text="Exploration: call-graph and stack-depth invariants on every generated program; halting and final state of LOOP-only programs against the reference interpreter.",
+    level_note="trusted: reference interpreter, generator",
+)
+
+
 def run_check(chk, drv):
     cfg = chk.cfg
     binp = drv.build_harness(cfg["harness"], chk.th)
